@@ -374,8 +374,25 @@ class FnView:
             if name in ("std::vec::Vec::len", "alloc::vec::Vec::len"):
                 name = "core::slice::len"          # a Vec's length is its slice's length
             args = [T(a) for a in call_args(n)]
+            if name.split("::")[-1] == "from" and len(args) == 1 and n.get("k") == "call" and n.get("ty") in NUM_TYS \
+                    and (call_args(n)[0].get("ty") or "").lstrip("&") in NUM_TYS:
+                # `u64::from(x)` / `f64::from(c)`: the lossless conversion `x as u64` / `c as f64`
+                ty_, src_ = n["ty"], call_args(n)[0]["ty"].lstrip("&")
+                if ty_ in INT_TYS and src_ in INT_TYS and int_width(ty_) >= int_width(src_):
+                    return args[0]
+                return ("cast", ty_, args[0])
             if name in TRANSPARENT and len(args) >= 1:
                 return args[0]
+            if name.split("::")[-1] == "contains" and "RangeInclusive" in name and len(args) == 2 and args[0][0] in ("struct", "call"):
+                # `(a..=b).contains(&x)`  ==  `a <= x && x <= b`
+                lo = hi = None
+                if args[0][0] == "call" and args[0][1].endswith("RangeInclusive::new") and len(args[0]) == 4:
+                    lo, hi = args[0][2], args[0][3]
+                elif args[0][0] == "struct":
+                    f_ = dict(args[0][2])
+                    lo, hi = f_.get("start"), f_.get("end")
+                if lo is not None and hi is not None:
+                    return ("bin", "&&", mk_bin("<=", lo, args[1]), mk_bin("<=", args[1], hi))
             if name.split("::")[-1] in ("any", "all") and name.startswith(("core::iter::", "std::iter::")) and len(args) == 2 \
                     and args[1][0] == "closure":
                 # `[a, b, c].iter().any(|x| p(x))`  ==  `p(a) || p(b) || p(c)` for a small literal table
@@ -667,6 +684,7 @@ def lit_term(n):
 
 
 SLICE_GET = "core::slice::get"
+NUM_TYS = ("u8", "u16", "u32", "u64", "u128", "usize", "i8", "i16", "i32", "i64", "i128", "isize", "f32", "f64")
 NONZERO_NEW = ("std::num::NonZero::new", "core::num::NonZero::new", "core::num::nonzero::NonZero::new")
 NONZERO_GET = ("std::num::NonZero::get", "core::num::NonZero::get", "core::num::nonzero::NonZero::get")
 
